@@ -38,5 +38,10 @@ TStep == /\ l <= Len(Events(h))
             /\ val' = e.val
          /\ l' = l + 1 /\ h' = h
 TNext == TStep
-Mark == MarkAccepted(h, l)
+\* registers NHist+1 .. 2*NHist hold how far each history got (a history is one linear behaviour), so that a rejection
+\* comes with the position of the event that no action explains
+ASSUME \A x \in 1..NHist : TLCSet(NHist + x, 0)
+Mark == MarkAccepted(h, l) /\ TLCSet(NHist + h, l)
+Post == /\ (Rejected = {} \/ PrintT(<<"PROGRESS", {<<x, TLCGet(NHist + x)>> : x \in Rejected}>>))
+        /\ AllAccepted
 ====
